@@ -214,8 +214,36 @@ func (w *Worker) harnessIntrinsic(st *State, f *Frame, x ssa.Value, name string,
 		if mainPkg == nil || mainPkg.Func("main") == nil {
 			panic(engineErr("no main.main"))
 		}
+		// a fresh process: package-level state as it is after initialisation, empty trace
+		for _, id := range w.e.globals {
+			st.heap[id] = deep(w.e.base.heap[id])
+		}
+		st.trace = nil
+		st.stdinPos = 0
+		st.exited = false
 		w.proc(st).catchDepth = len(st.frames)
 		w.invoke(st, f, nil, mainPkg.Func("main"), nil, nil)
+	case "verifProcStdout", "verifProcStderr":
+		want := EvStdout
+		if name == "verifProcStderr" {
+			want = EvStderr
+		}
+		out := StrV{}
+		for _, ev := range st.trace {
+			if ev.Kind == want {
+				out = strCat(out, ev.Text)
+			}
+		}
+		set(out)
+	case "verifProcExit":
+		code := mkBV(0, 64)
+		for _, ev := range st.trace {
+			if ev.Kind == EvExit {
+				code = ev.A
+				break
+			}
+		}
+		set(code)
 	case "verifTextContainsInOrder":
 		// structural containment: every part occurs, in order, as a contiguous run of segments
 		text := args[0].(StrV)
